@@ -4,7 +4,7 @@ from .lib.match import *
 UNITS = lambda u: u in ('w_inst_att',) or u.startswith('t_att') or u.startswith('t_server')
 SELECT = r'^bluetoe::server::(l2cap_input|l2cap_output|handle_exchange_mtu_request)$|^bluetoe::server::connection_data::'
 
-ALSO = [('C01', ('output-write-bounded',))]   # clauses of this property that another module's rules decide: run here as well
+ALSO = [('C01', ('output-write-bounded', 'range-writer-bounded'))]   # clauses of this property that another module's rules decide: run here as well
 
 
 def find_clip(fn):
